@@ -277,7 +277,10 @@ theorem good_dispatchOne (w : World) (wf : Nat) (n : String) : Good w (dispatchO
     split
     · exact Good.refl w
     · rename_i hc
-      exact Good.addTask (tk' := newTask wf n) rfl rfl (newOk_of_running he (by simpa using hc)) (lt_of_get he)
+      split
+      · exact Good.setExec (e := e) rfl he rfl
+          ⟨rfl, rfl, rfl, Nat.le_refl _, fun _ => ⟨rfl, rfl, rfl, rfl, rfl⟩⟩ id
+      · exact Good.addTask (tk' := newTask wf n) rfl rfl (newOk_of_running he (by simpa using hc)) (lt_of_get he)
   · exact Good.refl w
 
 theorem good_foldl {α : Type} (f : World → α → World) (hf : ∀ w a, Good w (f w a)) (l : List α) (w : World) :
@@ -289,24 +292,46 @@ theorem good_foldl {α : Type} (f : World → α → World) (hf : ∀ w a, Good 
 theorem good_dispatch (w : World) (wf : Nat) (names : List String) : Good w (dispatch w wf names) :=
   good_foldl _ (fun w n => good_dispatchOne w wf n) _ w
 
+/-- the states of the existing executions are untouched -/
+def SameStates (w w' : World) : Prop :=
+  ∀ (i : Nat) (e : Exec), w.execs[i]? = some e → ∃ e', w'.execs[i]? = some e' ∧ e'.state = e.state
+
+theorem SameStates.refl (w : World) : SameStates w w := fun _ e h => ⟨e, h, rfl⟩
+
+theorem SameStates.trans {a b c : World} (h1 : SameStates a b) (h2 : SameStates b c) : SameStates a c := by
+  intro i e h
+  obtain ⟨e1, he1, s1⟩ := h1 i e h
+  obtain ⟨e2, he2, s2⟩ := h2 i e1 he1
+  exact ⟨e2, he2, s2.trans s1⟩
+
+theorem dispatchOne_prefix (w : World) (wf : Nat) (n : String) :
+    SameStates w (dispatchOne w wf n) ∧ ∃ l, (dispatchOne w wf n).tasks = w.tasks ++ l := by
+  unfold dispatchOne
+  split
+  · rename_i e he
+    split
+    · exact ⟨SameStates.refl w, [], by simp⟩
+    · split
+      · refine ⟨fun i ei hi => ?_, [], by simp⟩
+        simp only [List.getElem?_set]
+        by_cases h : wf = i
+        · subst h; rw [he] at hi; cases hi
+          exact ⟨{ e with backlog := e.backlog ++ [n] }, by simp [lt_of_get he], rfl⟩
+        · exact ⟨ei, by simp [h, hi], rfl⟩
+      · exact ⟨SameStates.refl _, [newTask wf n], rfl⟩
+  · exact ⟨SameStates.refl w, [], by simp⟩
+
 theorem dispatch_prefix (w : World) (wf : Nat) (names : List String) :
-    (dispatch w wf names).execs = w.execs ∧ ∃ l, (dispatch w wf names).tasks = w.tasks ++ l := by
+    SameStates w (dispatch w wf names) ∧ ∃ l, (dispatch w wf names).tasks = w.tasks ++ l := by
   unfold dispatch
   generalize names.reverse = ns
   induction ns generalizing w with
-  | nil => exact ⟨rfl, [], by simp⟩
+  | nil => exact ⟨SameStates.refl w, [], by simp⟩
   | cons n ns ih =>
     simp only [List.foldl_cons]
     obtain ⟨he, l, hl⟩ := ih (dispatchOne w wf n)
-    have h1 : (dispatchOne w wf n).execs = w.execs ∧ ∃ l1, (dispatchOne w wf n).tasks = w.tasks ++ l1 := by
-      unfold dispatchOne
-      split
-      · split
-        · exact ⟨rfl, [], by simp⟩
-        · exact ⟨rfl, [newTask wf n], rfl⟩
-      · exact ⟨rfl, [], by simp⟩
-    obtain ⟨he1, l1, hl1⟩ := h1
-    exact ⟨he.trans he1, l1 ++ l, by rw [hl, hl1, List.append_assoc]⟩
+    obtain ⟨he1, l1, hl1⟩ := dispatchOne_prefix w wf n
+    exact ⟨he1.trans he, l1 ++ l, by rw [hl, hl1, List.append_assoc]⟩
 
 theorem dispatch_tasks_prefix (w : World) (wf : Nat) (names : List String) :
     ∃ l, (dispatch w wf names).tasks = w.tasks ++ l := (dispatch_prefix w wf names).2
@@ -348,7 +373,7 @@ theorem good_checkAndComplete (w : World) (i : Nat) : Good w (checkAndComplete w
           · exact good_finish w i e _ _ _ he (by decide) hc
           · exact good_finish w i e _ _ _ he (by decide) hc
 
-theorem good_stopOne (w w' : World) (i : Nat) (s : St) (msg : String) (h : stopOne w i s msg = some w') :
+theorem good_stopOne (w w' : World) (i : Nat) (s : St) (msg : Info) (h : stopOne w i s msg = some w') :
     Good w w' := by
   unfold stopOne at h
   split at h
@@ -401,15 +426,17 @@ theorem good_startSub (c : Cfg) (w : World) (t d idx : Nat) (tk : Task) (htk : w
   · exact good_startWf c w d _ _ _ (Or.inr ⟨t, tk, rfl, htk, hok⟩)
 
 theorem startSub_prefix (c : Cfg) (w : World) (t d idx : Nat) :
-    (∃ l, (startSub c w t d idx).execs = w.execs ++ l) ∧ ∃ l, (startSub c w t d idx).tasks = w.tasks ++ l := by
+    SameStates w (startSub c w t d idx) ∧ ∃ l, (startSub c w t d idx).tasks = w.tasks ++ l := by
   unfold startSub
   split
-  · exact ⟨⟨[], by simp⟩, [], by simp⟩
+  · exact ⟨SameStates.refl _, [], by simp⟩
   · unfold startWf
     simp only [Bool.false_eq_true, if_false]
     obtain ⟨he, l, hl⟩ := dispatch_prefix { w with execs := w.execs ++ [newExec d (some t) idx] } w.execs.length
       (startTasks (defOf c d))
-    exact ⟨⟨_, he⟩, l, hl⟩
+    refine ⟨SameStates.trans (fun i e hi => ⟨e, ?_, rfl⟩) he, l, hl⟩
+    show (w.execs ++ [newExec d (some t) idx])[i]? = some e
+    rw [List.getElem?_append_left (lt_of_get hi)]; exact hi
 
 theorem good_startSubs (c : Cfg) (t d p : Nat) (idxs : List Nat) :
     ∀ (w : World), (∃ tk, w.tasks[t]? = some tk ∧ tk.wf = p) →
@@ -422,10 +449,10 @@ theorem good_startSubs (c : Cfg) (t d p : Nat) (idxs : List Nat) :
     simp only [List.foldl_cons]
     have h1 : Good w (startSub c w t d i) :=
       good_startSub c w t d i tk htk (by rw [hwf]; exact newOk_of_running he hc)
-    obtain ⟨⟨le, hle⟩, lt, hlt⟩ := startSub_prefix c w t d i
-    refine h1.trans (ih _ ⟨tk, ?_, hwf⟩ ⟨e, ?_, hc⟩)
-    · rw [hlt, List.getElem?_append_left (lt_of_get htk)]; exact htk
-    · rw [hle, List.getElem?_append_left (lt_of_get he)]; exact he
+    obtain ⟨hss, lt, hlt⟩ := startSub_prefix c w t d i
+    obtain ⟨e', he', hs'⟩ := hss _ e he
+    refine h1.trans (ih _ ⟨tk, ?_, hwf⟩ ⟨e', he', by rw [hs']; exact hc⟩)
+    rw [hlt, List.getElem?_append_left (lt_of_get htk)]; exact htk
 
 theorem good_completeTask (c : Cfg) (w : World) (t : Nat) (s : St) : Good w (completeTask c w t s) := by
   unfold completeTask
@@ -532,7 +559,152 @@ theorem good_childResult (c : Cfg) (w : World) (x : Nat) : Good w (childResult c
           · exact h1.trans (Good.of_same rfl rfl)
           · exact h1.trans (good_completeTask c _ _ _)
 
-theorem good_step (c : Cfg) (w : World) (ev : Event) : Good w (step c w ev) := by
+
+theorem good_runExisting (c : Cfg) (w : World) (t : Nat) : Good w (runExisting c w t) := by
+  unfold runExisting
+  split
+  · exact Good.refl w
+  · rename_i tk htk
+    split
+    · exact Good.refl w
+    · split
+      · exact Good.refl w
+      · split
+        · exact Good.refl w
+        · rename_i e he
+          have h1 : Good w { w with tasks := w.tasks.set t { tk with state := .RUNNING, processed := false } } :=
+            Good.setTask rfl htk rfl rfl rfl
+          simp only
+          split
+          · exact h1
+          · exact h1.trans (Good.of_same rfl rfl)
+          · split
+            · exact h1.trans (good_completeTask c _ t _)
+            · rename_i hc
+              refine h1.trans (good_startSub c _ t _ 0 { tk with state := .RUNNING, processed := false }
+                (List.getElem?_set_self (lt_of_get htk)) ?_)
+              exact newOk_of_running
+                (w := { w with tasks := w.tasks.set t { tk with state := .RUNNING, processed := false } }) he
+                (by simpa using hc)
+          · refine Good.trans ?_ (good_wiSchedule c _ t _ _ _)
+            exact Good.setTask rfl htk rfl rfl rfl
+
+theorem good_taskUpdate (w : World) (t : Nat) (s : St) : Good w (taskUpdate w t s) := by
+  unfold taskUpdate
+  split
+  · exact Good.refl w
+  · rename_i tk htk
+    split
+    · exact Good.refl w
+    · split
+      · exact Good.refl w
+      · split
+        · exact Good.refl w
+        · exact Good.setTask rfl htk rfl rfl rfl
+
+theorem good_forceFail (w : World) (t : Nat) : Good w (forceFail w t).1 := by
+  unfold forceFail
+  split
+  · exact Good.refl w
+  · rename_i tk htk
+    have h1 : Good w { w with tasks := w.tasks.set t { tk with state := .ERROR } } :=
+      Good.setTask rfl htk rfl rfl rfl
+    simp only
+    split
+    · rename_i w2 h2
+      exact h1.trans (good_stopOne _ w2 _ _ _ h2)
+    · exact h1
+
+theorem paused_target_not_completed (s : St) (hp : isPaused s = false)
+    (hv : (isValidTransition s .PAUSED == some true) = true) : isCompleted s = false := by
+  cases s <;> first | rfl | (exfalso; revert hp hv; decide)
+
+theorem good_setState (w : World) (x : Nat) (e : Exec) (s : St) (he : w.execs[x]? = some e)
+    (hc : isCompleted e.state = false) (hs : isCompleted s = false) : Good w (setState w x e s) := by
+  refine Good.setExec (e := e) rfl he rfl ?_ ?_
+  · exact ⟨rfl, rfl, rfl, Nat.le_refl _, fun h => by rw [hc] at h; exact absurd h (by simp)⟩
+  · intro hj
+    refine ⟨fun _ => hj.1 hc, fun h => ?_, fun h => ?_⟩ <;> (simp only at h; rw [hs] at h; exact absurd h (by simp))
+
+/-- the loop over the sub-workflows inside pause_workflow -/
+theorem good_kids (c : Cfg) (f : Nat) (m : Mode) (hm : ∀ w x, Good w (prop c f m w x).1) (l : List Nat) :
+    ∀ (w0 : World) (acc : World × Bool), Good w0 acc.1 →
+      Good w0 (l.foldl (fun (acc : World × Bool) k =>
+        if acc.2 then acc else
+        match acc.1.execs[k]? with
+        | some ek => if isCompleted ek.state then acc else prop c f m acc.1 k
+        | none => acc) acc).1 := by
+  induction l with
+  | nil => intro w0 acc h; exact h
+  | cons k l ih =>
+    intro w0 acc h
+    simp only [List.foldl_cons]
+    apply ih
+    split
+    · exact h
+    · split
+      · split
+        · exact h
+        · exact h.trans (hm _ _)
+      · exact h
+
+/-- pause_workflow and the `_on_action_update` of an execution that has just been PAUSED (which only calls
+    pause_workflow again) satisfy `Good` -/
+theorem good_prop_pause (c : Cfg) : ∀ (f : Nat),
+    (∀ w x, Good w (prop c f .pause w x).1) ∧
+    (∀ w x e, w.execs[x]? = some e → isPaused e.state = true → Good w (prop c f .update w x).1) := by
+  intro f
+  induction f with
+  | zero => exact ⟨fun w x => Good.refl w, fun w x e _ _ => Good.refl w⟩
+  | succ f ih =>
+    obtain ⟨ih1, ih2⟩ := ih
+    constructor
+    · intro w x
+      simp only [prop]
+      have hk := good_kids c f .pause ih1 (kidsOf w x) w (w, false) (Good.refl w)
+      generalize (kidsOf w x).foldl _ (w, false) = r at hk ⊢
+      split
+      · exact hk
+      · split
+        · exact hk
+        · rename_i e he
+          split
+          · exact hk
+          · rename_i hnp
+            split
+            · rename_i hv
+              have hnc := paused_target_not_completed e.state (by simpa using hnp) hv
+              have h1 : Good r.1 (setState r.1 x e .PAUSED) := good_setState _ _ _ _ he hnc (by decide)
+              split
+              · exact hk.trans h1
+              · split
+                · exact hk.trans (h1.trans (Good.of_same rfl rfl))
+                · refine hk.trans (h1.trans (ih2 _ x { e with state := .PAUSED, info := .none, accepted := false } ?_ (by show isPaused St.PAUSED = true; decide)))
+                  simp [setState, lt_of_get he]
+            · exact hk
+    · intro w x e he hp
+      simp only [prop, he]
+      split
+      · exact Good.refl w
+      · rename_i t ht
+        split
+        · exact Good.refl w
+        · rename_i tk htk
+          simp only [hp, if_true]
+          have h1 := good_taskUpdate w t e.state
+          split
+          · exact (h1.trans (ih1 _ _)).trans (good_forceFail _ _)
+          · exact h1.trans (ih1 _ _)
+
+/-- the events `Good` is proved for: everything except the resume command and the scheduled
+    `_on_action_update` of a with-items child (`Workflow.resume` calls `set_state(RUNNING)` unguarded, which
+    the transition table also allows from ERROR / CANCELLED) -/
+def Plain : Event → Bool
+  | .resume _ => false
+  | .deliver (.jobChildUpdate _) => false
+  | _ => true
+
+theorem good_step (c : Cfg) (w : World) (ev : Event) (hpl : Plain ev = true) : Good w (step c w ev) := by
   cases ev with
   | startRoot d => exact good_startWf c w d none 0 true (Or.inl rfl)
   | stop a s msg =>
@@ -541,9 +713,15 @@ theorem good_step (c : Cfg) (w : World) (ev : Event) : Good w (step c w ev) := b
     · split
       · exact good_cancelTx w a msg
       · exact Good.refl w
-    · cases h : stopOne w a s msg with
+    · cases h : stopOne w a s (.op msg) with
       | none => exact Good.refl w
-      | some w' => exact good_stopOne w w' a s msg h
+      | some w' => exact good_stopOne w w' a s _ h
+  | pause a =>
+    simp only [step]
+    split
+    · exact Good.refl w
+    · exact (good_prop_pause c _).1 w a
+  | resume a => simp [Plain] at hpl
   | execute t ok =>
     simp only [step]
     split
@@ -556,8 +734,12 @@ theorem good_step (c : Cfg) (w : World) (ev : Event) : Good w (step c w ev) := b
     · have h0 : Good w { w with pending := removeFirst w.pending it } := Good.of_same rfl rfl
       refine h0.trans ?_
       cases it with
-      | postStartTask t => exact Good.of_same rfl rfl
-      | rpcStartTask t => exact good_runTask c _ t
+      | postStartTask t f => exact Good.of_same rfl rfl
+      | rpcStartTask t f =>
+        simp only
+        split
+        · exact good_runTask c _ t
+        · exact good_runExisting c _ t
       | postRunAction t => exact Good.of_same rfl rfl
       | runAction t => exact Good.refl _
       | rpcResult t ok => exact good_completeTask c _ t _
@@ -586,6 +768,7 @@ theorem good_step (c : Cfg) (w : World) (ev : Event) : Good w (step c w ev) := b
           · exact good_wiOnComplete c _ _
           · exact Good.refl _
         · exact Good.refl _
+      | jobChildUpdate x => simp [Plain] at hpl
 
 /-- `Task.complete(s)` on a task that is not completed writes `s` (and runs the completion logic once) -/
 theorem completeTask_sets_state (c : Cfg) (w : World) (t : Nat) (s : St) (tk : Task) (e : Exec)
@@ -604,16 +787,21 @@ theorem completeTask_sets_state (c : Cfg) (w : World) (t : Nat) (s : St) (tk : T
   · simp only [if_true]
     exact ⟨_, List.getElem?_set_self hlt, rfl, rfl, rfl, rfl⟩
 
-theorem good_run (c : Cfg) (w : World) (evs : List Event) : Good w (evs.foldl (step c) w) :=
-  good_foldl (step c) (good_step c) evs w
+/-- every event of the list is `Plain` -/
+def AllPlain (evs : List Event) : Prop := ∀ ev, ev ∈ evs → Plain ev = true
+
+theorem good_run (c : Cfg) (w : World) (evs : List Event) (hp : AllPlain evs) : Good w (evs.foldl (step c) w) := by
+  induction evs generalizing w with
+  | nil => exact Good.refl w
+  | cons ev evs ih =>
+    exact (good_step c w ev (hp ev (by simp))).trans (ih _ (fun e he => hp e (by simp [he])))
 
 theorem allJ_init : AllJ init :=
   ⟨fun i e h => by simp [init] at h, fun x e t h _ => by simp [init] at h, fun t tk h => by simp [init] at h,
    fun x e t tk h _ _ => by simp [init] at h⟩
 
-theorem allJ_reachable (c : Cfg) (evs : List Event) : AllJ (run c evs) :=
-  (good_run c init evs).inv allJ_init
-
+theorem allJ_reachable (c : Cfg) (evs : List Event) (hp : AllPlain evs) : AllJ (run c evs) :=
+  (good_run c init evs hp).inv allJ_init
 
 /-! ## the tree below an execution -/
 
